@@ -109,6 +109,10 @@ const PROFILES: &[Profile] = &[
     prof("reserve", "map", "reserve"),
     prof("iter", "map", "iter"),
     prof("xback", "map", "xback"),
+    prof("set", "set", "set"),
+    prof("set-pairs", "set", "set-pairs"),
+    Profile { sweep: Some("panic"), sweep_ops: 6, sweep_k: 16, steps: Some(70), ..prof("panic-set", "set", "set") },
+    Profile { sweep: Some("panic"), sweep_ops: 8, sweep_k: 12, steps: Some(90), ..prof("panic-set-pairs", "set", "set-pairs") },
     // fault sweeps
     Profile { sweep: Some("panic"), sweep_ops: 6, sweep_k: 16, steps: Some(70), ..prof("panic-mixed", "map", "mixed") },
     Profile { sweep: Some("panic"), sweep_ops: 4, sweep_k: 24, steps: Some(90), drop: Some(true), ..prof("panic-sat-drop", "map", "saturate") },
